@@ -583,6 +583,7 @@ def _extract_waveform(traces, sample, channel_ids=None, n_samples_waveforms=None
         channel_ids = slice(None, None, None)
         n_channels = traces.shape[1]
     else:
+        channel_ids = np.asarray(channel_ids)
         n_channels = len(channel_ids)
     t0, t1 = int(sample) - a, int(sample) + b
     # Extract the waveforms.
